@@ -630,6 +630,36 @@ def trees_of(sc, isar=False):
     return out
 
 
+def scan_correspondence(chk):
+    """the scan of names in size / discriminator expressions (`check_cpp_names`): the regular expression of the source, applied to
+    expression texts, finds what `NameScan.scan` finds (theorem C12_scan_is_calc_names: these are the names calc resolves)"""
+    src = open(os.path.join(REPO, 'prophyc', 'generators', 'base.py')).read()
+    m = re.search(r'for name in re\.findall\(r"([^"]+)", " "\.join\(', src)
+    if not m:
+        chk.correspondence_mismatch('NameScan.scan = the names check_cpp_names collects', {'source': 'prophyc/generators/base.py'},
+                                    'the re.findall over the expression texts was not found', None)
+        return
+    pattern = m.group(1)
+    rng = chk.rng
+    texts = ['0x10', 'LEN_0x10 + x10', '(K+1)*shift_2', 'A', '_a1 + b_2*C3', '0xFF + xFF', 'MASK0XFF|0x0f', '1+K', 'K1 << 2', '(A)', 'a b', '10 + abc', '0xA*xA',
+             'E_First - 2', 'numOf_x', 'x', '0x1 + x1', 'ID_0x7', '0X10']
+    atoms = ['K', 'x10', 'LEN_0x10', '0x10', '0xAb', '17', '0', 'a_b', '_t', 'MAX', 'xFF', 'MASK0XFF', 'e', '0xe', 'E1']
+    for _ in range(chk.scale(150, 1500)):
+        parts = [rng.choice(atoms)]
+        for _ in range(rng.randint(0, 4)):
+            parts.append(rng.choice([' + ', '+', ' - ', '*', ' / ', ' << ', '|', ' * (', ') + ']))
+            parts.append(rng.choice(atoms))
+        texts.append(''.join(parts))
+    ans = client.batch([{'op': 'name_scan', 'text': t} for t in texts])
+    for text, a in zip(texts, ans):
+        chk.corr_compared += 1
+        chk.count(('name-scan', text), bool(re.search(r'0[xX]', text)))
+        chk.bump('name-scan')
+        impl = re.findall(pattern, text)
+        if impl != a['names']:
+            chk.correspondence_mismatch('NameScan.scan = the names check_cpp_names collects', {'text': text, 'pattern': pattern}, impl, a['names'])
+
+
 def run_c12(tier):
     chk = core.Check('C12', tier)
     chk.rule = ('valid generated schemas (all three back-ends requested; Python import; g++ -fsyntax-only on the generated C++ full and raw '
@@ -750,6 +780,7 @@ def run_c12(tier):
                 elif outcome != 'ProphycError':
                     chk.property_violation({'schema': text, 'rule': 'identifier of the C++ runtime headers'}, {'what': 'ended in %s instead of a diagnostic' % outcome, 'message': msg})
                 shutil.rmtree(d, ignore_errors=True)
+        scan_correspondence(chk)
         # directed multi-file and isar schemas (defects D56..: built-in names, redefinition through includes, isar ranges)
         for k, (rule, opt, files, main, expected) in enumerate(DIRECTED):
             outcome, msg, bad = directed_case(root, k, opt, dict(files, **({'__python_only__': '1'} if rule.startswith('python only:') else {})), main)
